@@ -843,5 +843,375 @@ theorem refFree_of_treeAll {st : Store} : ∀ {d : Nat} {a : NodeId}, Go.treeAll
     simp only [refFree, hn, Bool.and_eq_true, List.all_eq_true]
     exact ⟨hp, fun x hx => refFree_of_treeAll (hc x hx)⟩
 
+/-! ## C20: a reference-free tree and its clone -/
+
+/-- the relation along which the clone simulates the original: `b` (in `st'`) is a copy of the subtree of `a` (in `st`)
+    — `Go.Sim`, what `cloneFuel_sim` establishes — and that subtree is reference-free -/
+def CloneR (B : Nat) (st st' : Store) (a b : NodeId) : Prop :=
+  ∃ k, refFree st k a = true ∧ Go.Sim B st st' k a b
+
+theorem cloneR_node {B : Nat} {st st' : Store} (hs : st.size ≤ B) (hs' : st'.size ≤ B) {a b : NodeId}
+    (h : CloneR B st st' a b) : OptRel (NodeSim (CloneR B st st')) (st.get? a) (st'.get? b) := by
+  obtain ⟨k, hf, hsim⟩ := h
+  have hnil : ∀ {a b : NodeId}, B ≤ a ∧ b = a → OptRel (NodeSim (CloneR B st st')) (st.get? a) (st'.get? b) := by
+    rintro a b ⟨hB, rfl⟩
+    rw [Go.get?_eq_none_iff.2 (Nat.le_trans hs hB), Go.get?_eq_none_iff.2 (Nat.le_trans hs' hB)]
+    trivial
+  cases k with
+  | zero => exact hnil hsim
+  | succ k =>
+    rcases hsim with hsim | ⟨n, n', ha, hb, hrel⟩
+    · exact hnil hsim
+    · rw [ha, hb]
+      obtain ⟨k', hk', -, hch⟩ := refFree_node hf ha
+      cases hk'
+      have hrel' := nodeRel_and_left (P := fun x => refFree st k x = true) hrel
+        (fun f hf' x hx => hch x (Go.mem_children_iff.2 ⟨f, hf', hx⟩))
+      exact NodeSim.of_nodeRel (Go.NodeRel.imp (fun x y hxy => ⟨k, hxy.1, hxy.2⟩) hrel')
+
+theorem cloneR_free {B : Nat} {st st' : Store} {a b : NodeId} {n : Node} (h : CloneR B st st' a b)
+    (hn : st.get? a = some n) : n.ref = "" ∧ n.dynamicRef = "" := by
+  obtain ⟨k, hf, -⟩ := h
+  obtain ⟨_, -, hp, -⟩ := refFree_node hf hn
+  exact noRefs_iff.1 hp
+
+/-- the two stores, with any resolution tables, simulate each other along `CloneR` -/
+theorem cloneR_envSim {B : Nat} {st st' : Store} (hs : st.size ≤ B) (hs' : st'.size ≤ B) (env env' : Spec.Env)
+    (hd : env.draft = env'.draft) (hre : env.reMatch = env'.reMatch) :
+    EnvSim (CloneR B st st') { env with st := st } { env' with st := st' } :=
+  EnvSim.of_refFree hd hre (fun _ _ h => cloneR_node hs hs' h) (fun _ _ _ h hn => cloneR_free h hn)
+
+/-! ## C05: the normal forms of the round trip are invisible to `evalStep`
+
+  `Go.normNode` = (1) nil-vs-empty normalisations and fields `evalStep` does not read (`preNorm`), then (2) the entry
+  lists of seven maps put in ascending key order (`midNorm`), then (3) "properties" in emission order.
+  (1) and (3) change no result at all (`NodeSim Eq`: `preNorm_invisible`, `lookup_propEntries`); (2) changes the ORDER in
+  which evaluated property names are listed, nothing else (`Inv.evalFuel_sim`: results agree up to `Inv.OutSim`). -/
+
+theorem listRel_eq_refl {α} : ∀ (l : List α), ListRel Eq l l
+  | [] => .nil
+  | _ :: l => .cons rfl (listRel_eq_refl l)
+
+theorem listRel_eq {α} : ∀ {l₁ l₂ : List α}, ListRel Eq l₁ l₂ → l₁ = l₂
+  | _, _, .nil => rfl
+  | _, _, .cons h1 h2 => by rw [h1, listRel_eq h2]
+
+theorem keyRel_eq_refl : ∀ (l : List (String × NodeId)), ListRel (KeyRel Eq) l l
+  | [] => .nil
+  | _ :: l => .cons ⟨rfl, rfl⟩ (keyRel_eq_refl l)
+
+theorem optRel_eq_refl {α} : ∀ (o : Option α), OptRel Eq o o
+  | none => trivial
+  | some _ => rfl
+
+theorem optListRel_eq_refl {α} : ∀ (o : Option (List α)), OptRel (ListRel Eq) o o
+  | none => trivial
+  | some l => listRel_eq_refl l
+
+/-- a map with `omitempty`: empty comes back nil (the entries keep their order) -/
+def emptyKV {α : Type} (m : Option (List (String × α))) : Option (List (String × α)) :=
+  match m with
+  | some (e :: es) => some (e :: es)
+  | _ => none
+
+/-- DependencyStrings: the empty map comes back nil, a nil list as the empty list -/
+def depNil (m : Option (List (String × Option (List String)))) : Option (List (String × Option (List String))) :=
+  match m with
+  | some (e :: es) => some ((e :: es).map fun e => (e.1, some (e.2.getD [])))
+  | _ => none
+
+/-- step (1): the part of `Go.normNode` that reorders nothing -/
+def preNorm (n : Node) : Node :=
+  { n with
+    required := Go.normReq n.required, extra := Go.normExtra n.extra, propertyOrder := none,
+    defs := emptyKV n.defs, definitions := emptyKV n.definitions,
+    patternProperties := emptyKV n.patternProperties, dependentSchemas := emptyKV n.dependentSchemas,
+    prefixItems := Go.normList n.prefixItems, allOf := Go.normList n.allOf,
+    dependencySchemas := emptyKV n.dependencySchemas, dependencyStrings := depNil n.dependencyStrings,
+    vocabulary := Go.normKV n.vocabulary, dependentRequired := emptyKV n.dependentRequired,
+    examples := Go.normJL n.examples }
+
+/-- step (2): the seven maps other than "properties" in ascending key order -/
+def midNorm (n : Node) : Node :=
+  Inv.withMaps (preNorm n) n.properties (Go.normMap n.patternProperties) (Go.normMap n.defs) (Go.normMap n.definitions)
+    (Go.normMap n.dependencySchemas) (Go.normDepStrs n.dependencyStrings) (Go.normKV n.dependentRequired)
+    (Go.normMap n.dependentSchemas)
+
+/-- step (3) -/
+theorem normNode_eq (n : Node) :
+    Go.normNode n = { midNorm n with properties := Go.normProps n.properties (n.propertyOrder.getD []) } := rfl
+
+theorem normReq_getD (r : Option (List String)) : (Go.normReq r).getD [] = r.getD [] := by
+  cases r with
+  | none => rfl
+  | some l => cases l <;> rfl
+
+theorem normList_getD (r : Option (List NodeId)) : (Go.normList r).getD [] = r.getD [] := by
+  cases r with
+  | none => rfl
+  | some l => cases l <;> rfl
+
+theorem emptyKV_getD {α : Type} (r : Option (List (String × α))) : (emptyKV r).getD [] = r.getD [] := by
+  cases r with
+  | none => rfl
+  | some l => cases l <;> rfl
+
+theorem depView_emptyKV (m : Option (List (String × Option (List String)))) : depView (emptyKV m) = depView m := by
+  unfold depView
+  rw [emptyKV_getD]
+
+theorem depView_depNil (m : Option (List (String × Option (List String)))) : depView (depNil m) = depView m := by
+  cases m with
+  | none => rfl
+  | some l =>
+    cases l with
+    | nil => rfl
+    | cons e es =>
+      unfold depView depNil
+      simp only [Option.getD_some, List.map_map]
+      rfl
+
+theorem scalarView_preNorm (n : Node) : scalarView (preNorm n) = scalarView n := by
+  unfold scalarView preNorm
+  dsimp only
+  rw [normReq_getD, depView_emptyKV, depView_depNil]
+
+/-- **each nil-vs-empty normalisation is invisible to `evalStep`**: `required: []` ↦ nil, `allOf: []` / `prefixItems: []`
+    ↦ nil, every empty map ↦ nil, a nil list in DependencyStrings ↦ `[]`; and so are the fields it does not read
+    (Extra, PropertyOrder, `examples`, `$vocabulary`, `$defs`, `definitions`) -/
+theorem preNorm_invisible (n : Node) : NodeSim Eq n (preNorm n) where
+  scal := (scalarView_preNorm n).symm
+  allOf := by
+    show ListRel Eq _ ((Go.normList n.allOf).getD [])
+    rw [normList_getD]
+    exact listRel_eq_refl _
+  anyOf := optListRel_eq_refl _
+  oneOf := optListRel_eq_refl _
+  not := optRel_eq_refl _
+  if_ := optRel_eq_refl _
+  then_ := optRel_eq_refl _
+  else_ := optRel_eq_refl _
+  prefixItems := by
+    show ListRel Eq _ ((Go.normList n.prefixItems).getD [])
+    rw [normList_getD]
+    exact listRel_eq_refl _
+  items := optRel_eq_refl _
+  itemsArray := optListRel_eq_refl _
+  additionalItems := optRel_eq_refl _
+  contains := optRel_eq_refl _
+  unevaluatedItems := optRel_eq_refl _
+  properties := fun _ => optRel_eq_refl _
+  patternProperties := by
+    show ListRel (KeyRel Eq) _ ((emptyKV n.patternProperties).getD [])
+    rw [emptyKV_getD]
+    exact keyRel_eq_refl _
+  additionalProperties := optRel_eq_refl _
+  propertyNames := optRel_eq_refl _
+  unevaluatedProperties := optRel_eq_refl _
+  dependentSchemas := by
+    show ListRel (KeyRel Eq) _ ((emptyKV n.dependentSchemas).getD [])
+    rw [emptyKV_getD]
+    exact keyRel_eq_refl _
+  dependencySchemas := by
+    show ListRel (KeyRel Eq) _ ((emptyKV n.dependencySchemas).getD [])
+    rw [emptyKV_getD]
+    exact keyRel_eq_refl _
+
+theorem get?_map (st : Store) (f : Node → Node) (i : NodeId) : Store.get? (st.map f) i = (Store.get? st i).map f := by
+  simp [Store.get?]
+
+/-- rewriting every schema object by an `f` that `evalStep` cannot tell from the identity: same ids, same tables -/
+theorem envSim_map (env : Spec.Env) (st : Store) (f : Node → Node) (hf : ∀ n, NodeSim Eq n (f n)) :
+    EnvSim Eq { env with st := st } { env with st := st.map f } where
+  draft := rfl
+  reMatch := rfl
+  node := fun a b h => by
+    subst h
+    show OptRel _ (st.get? a) (Store.get? (st.map f) a)
+    rw [get?_map]
+    cases st.get? a with
+    | none => trivial
+    | some n => exact hf n
+  ref := fun a b _ h _ _ => by
+    subst h
+    exact optRel_eq_refl _
+  dyn := fun a b _ h _ _ => by
+    subst h
+    refine ⟨optRel_eq_refl _, rfl, fun sc₁ sc₂ hsc => ?_⟩
+    rw [listRel_eq hsc]
+    exact optRel_eq_refl _
+
+theorem evalFuel_map (env : Spec.Env) (st : Store) (f : Node → Node) (hf : ∀ n, NodeSim Eq n (f n)) (fuel : Nat)
+    (scope : List NodeId) (s : NodeId) (j : Json) :
+    Spec.evalFuel { env with st := st } fuel scope s j = Spec.evalFuel { env with st := st.map f } fuel scope s j :=
+  evalFuel_sim (envSim_map env st f hf) fuel (listRel_eq_refl scope) rfl j
+
+/-! ### step (2): sorted maps -/
+
+theorem optPerm_emptyKV_normMap (m : Option (List (String × NodeId))) : Inv.optPerm (emptyKV m) (Go.normMap m) := by
+  cases m with
+  | none => trivial
+  | some l =>
+    cases l with
+    | nil => trivial
+    | cons e es => exact (Go.sortKV_perm _).symm
+
+theorem optPerm_emptyKV_normKV {α : Type} (m : Option (List (String × α))) : Inv.optPerm (emptyKV m) (Go.normKV m) := by
+  cases m with
+  | none => trivial
+  | some l =>
+    cases l with
+    | nil => trivial
+    | cons e es => exact (Go.sortKV_perm _).symm
+
+theorem optPerm_depNil (m : Option (List (String × Option (List String)))) :
+    Inv.optPerm (depNil m) (Go.normDepStrs m) := by
+  cases m with
+  | none => trivial
+  | some l =>
+    cases l with
+    | nil => trivial
+    | cons e es => exact (Go.sortKV_perm _).symm
+
+theorem permNode_pre_mid (n : Node) : Inv.permNode (preNorm n) (midNorm n) :=
+  ⟨n.properties, Go.normMap n.patternProperties, Go.normMap n.defs, Go.normMap n.definitions,
+    Go.normMap n.dependencySchemas, Go.normDepStrs n.dependencyStrings, Go.normKV n.dependentRequired,
+    Go.normMap n.dependentSchemas, Inv.optPerm.refl _, optPerm_emptyKV_normMap _, optPerm_emptyKV_normMap _,
+    optPerm_emptyKV_normMap _, optPerm_emptyKV_normMap _, optPerm_depNil _, optPerm_emptyKV_normKV _,
+    optPerm_emptyKV_normMap _, rfl⟩
+
+theorem permStore_pre_mid (st : Store) : Inv.permStore (st.map preNorm) (st.map midNorm) := by
+  refine ⟨by rw [Array.size_map, Array.size_map], fun i => ?_⟩
+  rw [get?_map, get?_map]
+  cases st.get? i with
+  | none => trivial
+  | some n => exact permNode_pre_mid n
+
+theorem storeWF_preNorm {st : Store} (h : Refine.StoreWF st) : Refine.StoreWF (st.map preNorm) := by
+  intro s n hn
+  rw [get?_map] at hn
+  cases hm : st.get? s with
+  | none => rw [hm] at hn; cases hn
+  | some m =>
+    rw [hm] at hn
+    cases hn
+    exact h s m hm
+
+/-! ### step (3): "properties" in emission order -/
+
+theorem mem_orderedKeys {ps : List (String × NodeId)} {order : List String} {k : String} (hk : k ∈ ps.map (·.1)) :
+    k ∈ Go.orderedKeys ps order := by
+  rw [Go.orderedKeys_blocks, List.mem_append]
+  by_cases ho : k ∈ order
+  · exact Or.inl (Go.mem_listedKeys.2 ⟨ho, hk⟩)
+  · exact Or.inr ((Go.sortStrings_perm' _).mem_iff.2 (Go.mem_restKeys.2 ⟨hk, ho⟩))
+
+/-- `evalStep` only looks "properties" up by name, and orderedProperties keeps every lookup -/
+theorem lookup_propEntries (ps : List (String × NodeId)) (order : List String) (k : String) :
+    Json.lookup k (Go.propEntries ps order) = Json.lookup k ps := by
+  by_cases hk : k ∈ Go.orderedKeys ps order
+  · exact Go.lookup_filterMap_lookup _ (fun _ h => Go.orderedKeys_isSome h) k hk
+  · have h1 : Json.lookup k (Go.propEntries ps order) = none := by
+      cases h : Json.lookup k (Go.propEntries ps order) with
+      | none => rfl
+      | some v =>
+        have hm : k ∈ (Go.propEntries ps order).map (·.1) :=
+          Go.lookup_isSome_iff_mem_keys.1 (by rw [h]; rfl)
+        rw [Go.keys_propEntries] at hm
+        exact absurd hm hk
+    have h2 : Json.lookup k ps = none := by
+      cases h : Json.lookup k ps with
+      | none => rfl
+      | some v => exact absurd (mem_orderedKeys (Go.lookup_isSome_iff_mem_keys.1 (by rw [h]; rfl))) hk
+    rw [h1, h2]
+
+theorem lookup_normProps (ps : Option (List (String × NodeId))) (order : List String) (k : String) :
+    Json.lookup k ((Go.normProps ps order).getD []) = Json.lookup k (ps.getD []) := by
+  cases ps with
+  | none => rfl
+  | some l => exact lookup_propEntries l order k
+
+/-- replacing "properties" by a list with the same lookups -/
+theorem NodeSim.of_props {R : NodeId → NodeId → Prop} {m n' : Node} (P : Option (List (String × NodeId)))
+    (h : NodeSim R { m with properties := P } n')
+    (hl : ∀ k, Json.lookup k (m.properties.getD []) = Json.lookup k (P.getD [])) : NodeSim R m n' where
+  scal := h.scal
+  allOf := h.allOf
+  anyOf := h.anyOf
+  oneOf := h.oneOf
+  not := h.not
+  if_ := h.if_
+  then_ := h.then_
+  else_ := h.else_
+  prefixItems := h.prefixItems
+  items := h.items
+  itemsArray := h.itemsArray
+  additionalItems := h.additionalItems
+  contains := h.contains
+  unevaluatedItems := h.unevaluatedItems
+  properties := fun k => by rw [hl k]; exact h.properties k
+  patternProperties := h.patternProperties
+  additionalProperties := h.additionalProperties
+  propertyNames := h.propertyNames
+  unevaluatedProperties := h.unevaluatedProperties
+  dependentSchemas := h.dependentSchemas
+  dependencySchemas := h.dependencySchemas
+
+/-! ### the tree read back -/
+
+/-- the relation along which the tree read back simulates the (normalised) original: `Go.TreeEq` on a reference-free
+    tree without nil children -/
+def TreeR (st st' : Store) (a b : NodeId) : Prop :=
+  ∃ k, Go.treeAll noRefs st k a = true ∧ Go.TreeEq st st' k a b
+
+theorem treeR_node {st st' : Store} {a b : NodeId} (h : TreeR st st' a b) :
+    OptRel (NodeSim (TreeR st st')) (Store.get? (st.map midNorm) a) (st'.get? b) := by
+  obtain ⟨k, hf, hte⟩ := h
+  cases k with
+  | zero => exact hte.elim
+  | succ k =>
+    obtain ⟨n, n', ha, hb, hrel⟩ := hte
+    obtain ⟨n0, hn0, -, hc⟩ := Go.treeAll_succ hf
+    rw [ha] at hn0
+    cases hn0
+    rw [get?_map, ha, hb]
+    have hrel' := nodeRel_and_left (P := fun x => Go.treeAll noRefs st k x = true) hrel
+      (fun f hf' x hx => hc x (Go.normNode_ids_sub hf' hx))
+    have hsim : NodeSim (TreeR st st') (Go.normNode n) n' :=
+      NodeSim.of_nodeRel (Go.NodeRel.imp (fun x y hxy => ⟨k, hxy.1, hxy.2⟩) hrel')
+    rw [normNode_eq] at hsim
+    exact NodeSim.of_props _ hsim fun k => (lookup_normProps n.properties _ k).symm
+
+theorem treeR_free {st st' : Store} {a b : NodeId} {m : Node} (h : TreeR st st' a b)
+    (hm : Store.get? (st.map midNorm) a = some m) : m.ref = "" ∧ m.dynamicRef = "" := by
+  obtain ⟨k, hf, -⟩ := h
+  cases k with
+  | zero => cases hf
+  | succ k =>
+    obtain ⟨n, hn, hp, -⟩ := Go.treeAll_succ hf
+    rw [get?_map, hn] at hm
+    cases hm
+    exact noRefs_iff.1 hp
+
+theorem treeR_envSim (st st' : Store) (env env' : Spec.Env) (hd : env.draft = env'.draft)
+    (hre : env.reMatch = env'.reMatch) :
+    EnvSim (TreeR st st') { env with st := st.map midNorm } { env' with st := st' } :=
+  EnvSim.of_refFree hd hre (fun _ _ h => treeR_node h) (fun _ _ _ h hn => treeR_free h hn)
+
+/-- **equal trees (up to the normal forms of the round trip) mean the same**, when reference-free: with any
+    resolution tables on either side, the same draft and regexp matcher, every instance (without duplicate keys) gets
+    results that agree up to the order in which the evaluated properties are listed (`Inv.OutSim`: undefined together,
+    invalid together, valid together with the same evaluated sets).
+    `Refine.StoreWF st`: the "properties" maps of `st` have distinct keys (they are Go maps). -/
+theorem treeEq_meaning {st st' : Store} {d : Nat} {a b : NodeId} (hte : Go.TreeEq st st' d a b)
+    (hfree : Go.treeAll noRefs st d a = true) (hst : Refine.StoreWF st) (env env' : Spec.Env)
+    (hd : env.draft = env'.draft) (hre : env.reMatch = env'.reMatch) (fuel : Nat) (j : Json)
+    (hj : Json.WF j = true) :
+    Inv.OutSim (Spec.evalFuel { env with st := st } fuel [] a j) (Spec.evalFuel { env' with st := st' } fuel [] b j) := by
+  rw [evalFuel_map env st preNorm preNorm_invisible fuel [] a j,
+    ← evalFuel_sim (treeR_envSim st st' env env' hd hre) fuel .nil ⟨d, hfree, hte⟩ j]
+  exact Inv.evalFuel_sim env (st.map preNorm) (st.map midNorm) (permStore_pre_mid st) (storeWF_preNorm hst) fuel
+    [] a j j (Inv.permJson_refl j) hj
+
 end Iso
 end JSV
